@@ -276,3 +276,115 @@ specialise(
     bounds="constraint_message / required_message fixed per instance",
     weight=40,
 )
+
+
+# ---- g: parameter-derived bind attributes on several rows ------------------------------------------
+@ob(
+    "C05",
+    "g.param-binds",
+    timeout=500,
+    kernel=K,
+    shims=("S1", "S2", "S3", "S4"),
+    symbolic="presence of the parameters cell on each of four rows (image max-pixels twice, audio quality, geopoint allow-mock-accuracy), presence of a relevant cell on the first two (6 symbolic booleans) and two symbolic max-pixels digits",
+    bounds="four rows whose bind attributes come from the parameters column; every bind must carry exactly its own row's attributes",
+    weight=120,
+)
+def c05_param_binds(p_a: bool, p_b: bool, p_au: bool, p_geo: bool, r_a: bool, r_b: bool, d0: int, d1: int) -> bool:
+    """
+    pre: 49 <= d0 <= 57 and 49 <= d1 <= 57
+    post: _ == True
+    """
+    ra = {"type": "image", "name": "pa", "label": "A"}
+    rb = {"type": "image", "name": "pb", "label": "B"}
+    rau = {"type": "audio", "name": "au", "label": "U"}
+    rg = {"type": "geopoint", "name": "gp", "label": "G"}
+    want = {
+        "/data/pa": {"nodeset": "/data/pa", "type": "binary"},
+        "/data/pb": {"nodeset": "/data/pb", "type": "binary"},
+        "/data/au": {"nodeset": "/data/au", "type": "binary"},
+        "/data/gp": {"nodeset": "/data/gp", "type": "geopoint"},
+    }
+    if p_a:
+        ra["parameters"] = "max-pixels=" + S(d0) + "00"
+        want["/data/pa"]["orx:max-pixels"] = S(d0) + "00"
+    if p_b:
+        rb["parameters"] = "max-pixels=" + S(d1) + "0"
+        want["/data/pb"]["orx:max-pixels"] = S(d1) + "0"
+    if p_au:
+        rau["parameters"] = "quality=low"
+        want["/data/au"]["odk:quality"] = "low"
+    if p_geo:
+        rg["parameters"] = "allow-mock-accuracy=true"
+        want["/data/gp"]["odk:allow-mock-accuracy"] = "true"
+    if r_a:
+        ra["relevant"] = "1=1"
+        want["/data/pa"]["relevant"] = "1=1"
+    if r_b:
+        rb["relevant"] = "2=2"
+        want["/data/pb"]["relevant"] = "2=2"
+    survey, _w, _js = build_survey({"survey": [ra, rb, rau, rg], "survey_header": [{"type": None, "name": None, "label": None, "parameters": None, "relevant": None}]})
+    model = _model(survey)
+    seen = []
+    for b in _binds(model):
+        ns = b.getAttribute("nodeset")
+        if ns in seen:
+            return False
+        seen.append(ns)
+        if ns in want:
+            got = _attrs(b)
+            if sorted(got.keys()) != sorted(want[ns].keys()):
+                return False
+            for k in want[ns]:
+                if got[k] != want[ns][k]:
+                    return False
+    return len(seen) == 5
+
+
+# ---- h: a triggered calculation keeps every other bind attribute -------------------------------------
+@ob(
+    "C05",
+    "h.trigger-binds",
+    timeout=400,
+    kernel=K + ("pyxform.question:Question.nest_set_nodes",),
+    shims=("S1", "S2", "S4"),
+    symbolic="presence of relevant / required / readonly / constraint cells on a calculate row that has a trigger (4 symbolic booleans), the calculation column placed before or after them (boolean), a tracer character on another row",
+    bounds="one text question + one triggered calculate; the cell holding the reference is concrete (C lexer)",
+    weight=60,
+)
+def c05_trigger_binds(p_rel: bool, p_req: bool, p_ro: bool, p_con: bool, calc_first: bool, c0: int) -> bool:
+    """
+    pre: 33 <= c0 <= 126 and c0 != 36
+    post: _ == True
+    """
+    row = {"type": "calculate", "name": "c1", "trigger": "${q1}"}
+    want = {"nodeset": "/data/c1", "type": "string"}
+    if calc_first:
+        row["calculation"] = "1+1"
+    if p_rel:
+        row["relevant"] = "1=1"
+        want["relevant"] = "1=1"
+    if p_req:
+        row["required"] = "yes"
+        want["required"] = "true()"
+    if p_ro:
+        row["read_only"] = "yes"
+        want["readonly"] = "true()"
+    if p_con:
+        row["constraint"] = ".>0"
+        want["constraint"] = ".>0"
+    if not calc_first:
+        row["calculation"] = "1+1"
+    survey, _w, _js = build_survey({"survey": [{"type": "text", "name": "q1", "label": S(c0, 66)}, row]})
+    root = survey.xml()
+    model = elements(root, "model")[0]
+    mine = [b for b in _binds(model) if b.getAttribute("nodeset") == "/data/c1"]
+    if len(mine) != 1:
+        return False
+    got = _attrs(mine[0])
+    if sorted(got.keys()) != sorted(want.keys()):
+        return False
+    for k in want:
+        if got[k] != want[k]:
+            return False
+    svs = [e for e in elements(root, "setvalue") if e.getAttribute("ref") == "/data/c1"]
+    return len(svs) == 1 and svs[0].getAttribute("value") == "1+1" and svs[0].getAttribute("event") == "xforms-value-changed"
